@@ -266,6 +266,19 @@ def grammar_obligations(repo, second_opinion=True, runtime_tests=True, thorough=
                 n_sent += 1
                 if not real_syntax_ok(text):
                     disagreements.append(("sentence-rejected-by-runtime", text))
+        # every element symbol through the whole reader (the listener needs its attribute table, not only the grammar)
+        from ref.elements import SYMBOLS_BY_Z
+        for sym in SYMBOLS_BY_Z:
+            for text in (f"{sym}/", f"{sym}2/(1-2)/(2:mass=300,rad=2)") + ((f"C{sym}/(1-2)",) if sym not in ("C", "H") else ()):
+                diff = semantic_differential(text)
+                n_diff += 1
+                if diff is not None and len(sem_fail) < 5:
+                    sem_fail.append((text, diff))
+        for wit in base:
+            diff = semantic_differential(voc.text(wit))
+            n_diff += 1
+            if diff is not None and len(sem_fail) < 5:
+                sem_fail.append((voc.text(wit), diff))
         # one-token edits of a few base sentences; membership decided by z3, outcome by the real parser
         alphabet = [voc.char(n) for n in ("C", "H", "Cl", "/", "(", ")", "-", ":", ",", "=", "mass", "rad", "1", "2", "GREATER_THAN_NINE")]
         seeds = sorted(set(base), key=len)[:(6 if thorough else 2)] + [
